@@ -14,6 +14,12 @@ CLAIMS = {
  "C13": ("exploration", "reply-stream / request-stream size monitors over an msize x count x object-size grid, data compared with a synthetic file",
          "Server: msize grid x Tread/Treaddir count grid (0 .. 2^32-1) x file/directory sizes on both sides of the limit; every reply's size field is checked against the announced msize and its data/entries against the backend content (shortened, never wrong, never empty while something fits). Client: ReadAt/WriteAt/Readdir/GetXattr of sizes around and far above the limit against a fake server announcing less than requested; every request frame and requested reply size is checked.",
          "Trusts the reference codec's size accounting and net.Pipe; only Rread/Rreaddir are bound by the statement.", "DESIGN.md section 3 C13"),
+ "C19": ("exploration", "paged-listing oracle (multiset of names vs ground truth, QID/type vs Walk+GetAttr) over real localfs directories, staticfs, composefs; direct and through client+server",
+         "Directory sizes 0..600 (thorough 5000) x name lengths 1/8/255/mixed x counts from one entry to 2^32-1 (direct: entry counts; served: byte counts around one/two entries, msize-11, beyond msize; msize 4K/64K/1M) for localfs temp directories, staticfs, flat and nested composefs. Every listing follows the Offset protocol and is compared as a multiset with ground truth; sampled entries are re-walked and their QID/type compared.",
+         "Real temp directories under /verif/.scratch; directories are static while listed; QID agreement is sampled (<= 64 entries) for large directories.", "DESIGN.md section 3 C19"),
+ "C20": ("exploration", "stability/injectivity oracle on hooked mapping + Go race detector on concurrent mapper/composefs workloads + exhaustive mode round trip",
+         "localfs (dev, ino) mapping evaluated through a verif hook on ~2*10^4 pairs of every class, repeated sequentially and from 8 goroutines (stability and injectivity by hash map); real files of every creatable type for QID type vs mode; qids.Mapper and composefs/staticfs served to 16 concurrent clients on 4 connections under the race detector (both tiers); FileMode<->os.FileMode round trip exhaustive over 7 types x 4096 permission values.",
+         "Race detector reports with a frame under /repo count as violations; the hook calls the real localToQid with a synthetic FileInfo.", "DESIGN.md section 3 C20"),
 }
 
 PENDING = "check under construction in this round (DESIGN.md section 3); will be claimed once its monitor is committed and silent on the repaired tree"
